@@ -137,7 +137,10 @@ var c18Templates = map[string]string{
 	"fromdup.html":  "{% from 'macros3.twig' import a as x, b as x, c as y, a as y %}{{ x() }}{{ y() }}",
 	"frommiss.html": "{% from 'macros3.twig' import zz1, a, zz2 as q, zz3 %}{{ a() }}",
 	"macros3.twig":  "{% macro a() %}A{% endmacro %}{% macro b() %}B{% endmacro %}{% macro c() %}C{% endmacro %}",
-	"tests.txt":     "{{ 4 is pos }}{{ 0 is not pos }}{% for i in items if i %}{{ loop.index }}{{ i }}{% else %}none{% endfor %}",
+	// ... and two imported blocks under one name, and several that are not there
+	"usedup.html":  "{% use 'f.html.twig' with one as z, two as z %}{{ block('z') }}",
+	"usemiss.html": "{% use 'f.html.twig' with nob1 as p, one as q, nob2 as r, nob3 as s %}{{ block('q') }}",
+	"tests.txt":    "{{ 4 is pos }}{{ 0 is not pos }}{% for i in items if i %}{{ loop.index }}{{ i }}{% else %}none{% endfor %}",
 }
 
 // c18Shared / c18SharedMap are read-only values that every context refers to (the same Go slice, with spare
